@@ -69,6 +69,8 @@ MdhdFieldsV(b, timescale) == <<
     Fld("pre_defined", IF Ver(b) = 1 THEN 34 ELSE 22, 2, Zeros(2)) >>
 MdhdFields(timescale) == MdhdFieldsV(<< 0 >>, timescale)
 
+(* the name of a handler box is ONE null-terminated string that ends the box: the terminator is the last byte and the only zero *)
+HdlrNameBad(b) == Len(b) < 25 \/ b[Len(b)] # 0 \/ \E i \in 25..(Len(b) - 1) : b[i] = 0
 HdlrFields(handler) == <<
     Fld("version-flags", 0, 4, Zeros(4)), Fld("pre_defined", 4, 4, Zeros(4)), Fld("handler_type", 8, 4, handler),
     Fld("reserved", 12, 12, Zeros(12)) >>
@@ -305,7 +307,7 @@ ProgressiveRawSigs(F, cfg, firstKey, hasVideo) ==
               \cup (IF ~TkhdEnabled(b) THEN {LSig("C19", "Recovered", "progressive/tkhd", "track-not-enabled")} ELSE {}))
     \cup NeedRaw(F, vt \o ".mdia.mdhd", "progressive/mdhd", LAMBDA b : FieldTableSigs("C19", "progressive/mdhd", b, MdhdSize(b), MdhdFieldsV(b, 90000)))
     \cup NeedRaw(F, vt \o ".mdia.hdlr", "progressive/hdlr", LAMBDA b : FieldTableSigs("C19", "progressive/hdlr", b, -1, HdlrFields(VIDE))
-              \cup (IF Len(b) < 25 \/ b[Len(b)] # 0 THEN {LSig("C19", "BoxLayout", "progressive/hdlr", "name")} ELSE {}))
+              \cup (IF HdlrNameBad(b) THEN {LSig("C19", "BoxLayout", "progressive/hdlr", "name")} ELSE {}))
     \cup NeedRaw(F, vt \o ".mdia.minf.vmhd", "progressive/vmhd", LAMBDA b : FieldTableSigs("C19", "progressive/vmhd", b, 12,     \* 14496-12 12.1.2: FullBox(version 0, flags 1)
                                 << Fld("version", 0, 1, << 0 >>), Fld("flags", 1, 3, << 0, 0, 1 >>), Fld("graphicsmode-opcolor", 4, 8, Zeros(8)) >>))
     \cup NeedRaw(F, vt \o ".mdia.minf.dinf.dref.url ", "progressive/url", LAMBDA b : FieldTableSigs("C19", "progressive/url", b, 4, << Fld("version-flags", 0, 4, << 0, 0, 0, 1 >>) >>))   \* self-contained
@@ -323,7 +325,8 @@ ProgressiveRawSigs(F, cfg, firstKey, hasVideo) ==
                   FieldTableSigs("C19", "progressive/tkhd-audio", b, TkhdSize(b), TkhdFieldsV(b, TrackIdOf(F, 2), 0, 0, TRUE))
                   \cup (IF ~TkhdEnabled(b) THEN {LSig("C19", "Recovered", "progressive/tkhd-audio", "track-not-enabled")} ELSE {}))
         \cup NeedRaw(F, at \o ".mdia.mdhd", "progressive/mdhd-audio", LAMBDA b : FieldTableSigs("C19", "progressive/mdhd-audio", b, MdhdSize(b), MdhdFieldsV(b, 90000)))
-        \cup NeedRaw(F, at \o ".mdia.hdlr", "progressive/hdlr-audio", LAMBDA b : FieldTableSigs("C19", "progressive/hdlr-audio", b, -1, HdlrFields(SOUN)))
+        \cup NeedRaw(F, at \o ".mdia.hdlr", "progressive/hdlr-audio", LAMBDA b : FieldTableSigs("C19", "progressive/hdlr-audio", b, -1, HdlrFields(SOUN))
+                                                                        \cup (IF HdlrNameBad(b) THEN {LSig("C19", "BoxLayout", "progressive/hdlr-audio", "name")} ELSE {}))
         \cup NeedRaw(F, at \o ".mdia.minf.dinf.dref.url ", "progressive/url-audio", LAMBDA b : FieldTableSigs("C19", "progressive/url-audio", b, 4, << Fld("version-flags", 0, 4, << 0, 0, 0, 1 >>) >>))
         \cup NeedRaw(F, at \o ".mdia.minf.smhd", "progressive/smhd", LAMBDA b : FieldTableSigs("C19", "progressive/smhd", b, 8, << Fld("version-flags", 0, 4, Zeros(4)), Fld("reserved", 6, 2, Zeros(2)) >>))
         \cup (IF TrackEntry(F, 2) # aent THEN {LSig("C07", "SampleEntry", "progressive/audio", ToString(<< "type", TrackEntry(F, 2) >>))} ELSE
@@ -358,7 +361,7 @@ MetaHdlrSigs(F) ==
          FieldTableSigs("C19", "progressive/meta-hdlr", b, -1,
               << Fld("version-flags", 0, 4, Zeros(4)), Fld("pre_defined", 4, 4, Zeros(4)), Fld("handler_type", 8, 4, << 109, 100, 105, 114 >>),
                  Fld("reserved", 16, 8, Zeros(8)) >>)
-         \cup (IF Len(b) < 25 \/ b[Len(b)] # 0 THEN {LSig("C19", "BoxLayout", "progressive/meta-hdlr", "name")} ELSE {})
+         \cup (IF HdlrNameBad(b) THEN {LSig("C19", "BoxLayout", "progressive/meta-hdlr", "name")} ELSE {})
 
 RawSigsFile(F, cfg, v, a) ==
     IF ~("raw" \in DOMAIN F) THEN {}
@@ -410,7 +413,7 @@ RawSigsInit(F, cfg) ==
     \cup NeedRaw(F, vt \o ".mdia.mdhd", "init/mdhd", LAMBDA b : FieldTableSigs("C19", "init/mdhd", b, MdhdSize(b),
                    MdhdFieldsV(b, cfg.timescale) \o << Fld("language", IF Ver(b) = 1 THEN 32 ELSE 20, 2, << 85, 196 >>) >>))     \* no language can be configured: 'und', pad bit 0
     \cup NeedRaw(F, vt \o ".mdia.hdlr", "init/hdlr", LAMBDA b : FieldTableSigs("C19", "init/hdlr", b, -1, HdlrFields(VIDE))
-              \cup (IF Len(b) < 25 \/ b[Len(b)] # 0 THEN {LSig("C19", "BoxLayout", "init/hdlr", "name")} ELSE {}))
+              \cup (IF HdlrNameBad(b) THEN {LSig("C19", "BoxLayout", "init/hdlr", "name")} ELSE {}))
     \cup NeedRaw(F, vt \o ".mdia.minf.vmhd", "init/vmhd", LAMBDA b : FieldTableSigs("C19", "init/vmhd", b, 12,     \* 14496-12 12.1.2: FullBox(version 0, flags 1)
                                 << Fld("version", 0, 1, << 0 >>), Fld("flags", 1, 3, << 0, 0, 1 >>), Fld("graphicsmode-opcolor", 4, 8, Zeros(8)) >>))
     \cup NeedRaw(F, vt \o ".mdia.minf.dinf.dref.url ", "init/url", LAMBDA b : FieldTableSigs("C19", "init/url", b, 4, << Fld("version-flags", 0, 4, << 0, 0, 0, 1 >>) >>))   \* self-contained
